@@ -296,6 +296,32 @@ func C01(ctx *core.Ctx) {
 		}
 	}
 
+	// ---- R7 frame ownership -------------------------------------------------------
+	ctx.Rule("C01.R7", "frame ownership: every frame a reader loop hands to the registry is a buffer allocated for that frame alone (the registry passes it to the caller uncopied)", 1)
+	for _, fn := range r.Fns {
+		for _, c := range ssax.Calls(fn) {
+			if !(c.Method != nil && c.Method.Name() == "Execute" && ssax.TypeNamed(c.Method.Type().(*types.Signature).Recv().Type(), "", "fRegistry")) {
+				continue
+			}
+			if !inCycle(c.Instr.(ssa.Instruction)) {
+				continue
+			}
+			frame := ssax.Strip(c.Args()[1])
+			ok, how := false, ""
+			if tup, isEx := ExtractOf(frame, 0); isEx {
+				if pc, isCall := CallValue(tup); isCall && pc.Static != nil && pc.Static.Pkg == r.Pkg {
+					ok = returnsFreshSlice(pc.Static)
+					how = ssax.Name(pc.Static) + " returns a slice made in that call on every path"
+				}
+			}
+			if _, isMake := frame.(*ssa.MakeSlice); isMake {
+				ok, how = true, "make([]byte, …) inside the loop"
+			}
+			ctx.Check(ok, "C01.R7", ssax.Name(fn)+" › frame passed to Execute is freshly allocated", r.IPos(c.Instr), how,
+				"the reader loop reuses frame storage across iterations while the previous frame is still owned by a caller (delivered uncopied through the result channel): a correctly correlated request decodes another request's bytes")
+		}
+	}
+
 	// ---- R4/R5 Request implementations --------------------------------------
 	for _, req := range r.Impl("FTransport", "Request") {
 		c01Request(ctx, r, req, "C01.R4", "C01.R5")
@@ -640,4 +666,25 @@ func VarargValues(v ssa.Value) []ssa.Value {
 		}
 	}
 	return out
+}
+
+// returnsFreshSlice: every return of fn returns (as first result) nil or a
+// slice made by make in fn — never a parameter, a field or a re-slice of one.
+func returnsFreshSlice(fn *ssa.Function) bool {
+	n := 0
+	for _, vs := range ReturnedValues(fn) {
+		if len(vs) == 0 {
+			return false
+		}
+		v := ssax.Strip(vs[0])
+		n++
+		if c, ok := v.(*ssa.Const); ok && c.IsNil() {
+			continue
+		}
+		if _, ok := v.(*ssa.MakeSlice); ok {
+			continue
+		}
+		return false
+	}
+	return n > 0
 }
